@@ -37,6 +37,8 @@ mutual
     | .absent => "A"
     | .record vs => "R( " ++ showVals vs ++ " )"
     | .list items => "L( " ++ showVals items ++ " )"
+    | .node t => "t" ++ hexOf (canon t).toList
+    | .int neg m => if neg then "i-" ++ toString m else "i" ++ toString m
   partial def showVals (vs : List Val) : String :=
     if vs.isEmpty then "." else " ".intercalate (vs.map showVal)
 end
@@ -61,6 +63,9 @@ partial def parseVals : List String → Option (List Val × List String)
         | _ => none
       else match tok.toList with
         | 's' :: h => (unhex (String.ofList h)).map fun s => (.str s, rest)
+        | 't' :: h => (unhex (String.ofList h)).map fun s => (.node (.text s), rest)
+        | 'i' :: '-' :: d => (String.ofList d).toNat?.map fun n => (.int true n, rest)
+        | 'i' :: d => (String.ofList d).toNat?.map fun n => (.int false n, rest)
         | 'n' :: d => (String.ofList d).toNat?.map fun n => (.nat n, rest)
         | ['b', '0'] => some (.flag false, rest)
         | ['b', '1'] => some (.flag true, rest)
@@ -77,7 +82,7 @@ partial def parseVals : List String → Option (List Val × List String)
     | some (v, rest') => (parseVals rest').map fun r => (v :: r.1, r.2)
     | none => none
 
-def readVals (s : String) : Option (List Val) :=
+def readVals0 (s : String) : Option (List Val) :=
   match parseVals (words s) with
   | some (vs, []) => some vs
   | _ => none
@@ -121,6 +126,30 @@ def readTree (s : String) : Option Node :=
   match parseNode (tokens s) with
   | some (n, []) => some n
   | _ => none
+
+mutual
+  /-- `xmlns` first (the canonical text form sorts attributes; `normE` writes the namespace first) -/
+  partial def xmlnsFirst : Node → Node
+    | .text s => .text s
+    | .elem n as ks =>
+      .elem n (as.filter (fun kv => kv.1 == "xmlns".toList) ++ as.filter (fun kv => kv.1 != "xmlns".toList)) (ks.map xmlnsFirst)
+end
+
+mutual
+  /-- `.str` values that stand for trees (token `t<hex>`, kept as `.node (.text hex)` by `parseVals`) are decoded here -/
+  partial def fixNodes : Val → Option Val
+    | .node (.text h) => (readTree (String.ofList h)).map fun t => .node (xmlnsFirst t)
+    | .record vs => (fixNodesL vs).map .record
+    | .list vs => (fixNodesL vs).map .list
+    | v => some v
+  partial def fixNodesL : List Val → Option (List Val)
+    | [] => some []
+    | v :: vs => match fixNodes v, fixNodesL vs with
+      | some a, some b => some (a :: b)
+      | _, _ => none
+end
+
+def readVals (s : String) : Option (List Val) := (readVals0 s).bind fixNodesL
 
 /-! ## generated family of canonical values -/
 
@@ -166,6 +195,10 @@ def genScalar (ty : FTy) (i c : Nat) : Val × Nat :=
   | .posInt b =>
     let cands := [1, 2, 2 ^ b - 1, 10, 404, 1 + mix i (c + 2) % (2 ^ b - 1)]
     (if present i c then .opt (some (cands[pick i (c + 1) cands.length]!)) else .opt none, c + 3)
+  | .sint b _ =>
+    let cands : List Val := [.int false 1, .int true 1, .int false 127, .int true 128, .int false (2 ^ b - 1), .int true (2 ^ b),
+      .int false 110, .int (mix i (c + 2) % 2 == 0) (1 + mix i (c + 3) % (2 ^ b - 1))]
+    (if present i c then cands[pick i (c + 1) cands.length]! else .int false 0, c + 4)
   | .enumL names =>
     (if present i c && names.length > 0 then .opt (some (pick i (c + 1) names.length)) else .opt none, c + 2)
   | .flag _ => (.flag (present i c), c + 1)
@@ -192,6 +225,11 @@ mutual
     | .attr _ ty _ => genScalar ty i c
     | .attrReadOnly _ ty => genScalar ty i c
     | .attrRW _ _ ty _ => genScalar ty i c
+    | .attrReq _ ty =>
+      -- a mandatory attribute never holds the default: strings are non-empty, the rest as generated with everything present
+      match ty with
+      | .str => (.str (pool[1 + pick i (c + 1) (pool.size - 1)]!).toList, c + 2)
+      | _ => genScalar ty 256 c
     | .text ty => genScalar ty i c
     | .enumChild _ _ _ names m =>
       if (m || present i c) && names.length > 0 then (.opt (some (pick i (c + 1) names.length)), c + 2)
@@ -221,6 +259,17 @@ mutual
         let r := genItems ofs i (c + 8) (pick i (c + 7) 3)
         (.record [.nat ti, w, .list r.1], r.2)
       else (.record [.nat ti, w, .list []], c + 8)
+    | .rest p excl =>
+      let str := fun (k : Nat) => (pool[1 + pick i (c + k) (pool.size - 1)]!).toList   -- non-empty pool strings
+      let cands : List Node := [
+        .elem "x".toList [("xmlns".toList, "urn:verif:a".toList), ("a".toList, str 3)] [],
+        .elem "query".toList [("xmlns".toList, "urn:verif:b".toList)] [.elem "item".toList [("k".toList, str 4)] [.text (str 5)]],
+        .elem "ping".toList [("xmlns".toList, "urn:xmpp:ping".toList)] [],
+        .elem "plain".toList [] [.text (str 6), .elem "sub".toList [("xml:lang".toList, "en".toList)] []],
+        .elem "x".toList [("xmlns".toList, "urn:verif:a".toList)] [.elem "y".toList [("xmlns".toList, "urn:verif:c".toList)] [.text (str 7)]]]
+      let n := if present i c then 1 + pick i (c + 1) 3 else 0
+      let trees := (List.range n).map fun j => normE p (cands[pick i (c + 8 + j) cands.length]!)
+      (.list ((trees.filter fun t => t.isElem && !exclAny excl p t).map Val.node), c + 12)
     | .strSet _ =>
       let n := if present i c then 1 + pick i (c + 1) 4 else 0
       let members := (List.range n).map fun k => (pool[pick i (c + 2 + k) pool.size]!).toList
@@ -286,6 +335,7 @@ mutual
     | .many h fs _ => h.tag :: tagsFs fs
     | .strSet h => [h.tag]
     | .formValue _ _ _ vh _ _ oh ofs _ => vh.tag :: oh.tag :: tagsFs ofs
+    | .rest _ excl => excl.filterMap (·.tag)
     | _ => []
   partial def tagsFs : List Field → List Str
     | [] => []
